@@ -18,15 +18,72 @@ CINV = ('LWWIsFold', 'CompactLemmas')
 MODES = ['fast', 'full']
 
 
+PROBES = ['has', 'stats', 'fsstats', '']
+
+
+def has_tombs(st):
+    return any(sl['tombs'] for f in st['c']['files'] for sl in f)
+
+
 def decorate(states, nts, seed, ntypes, nconc, base=0, rotate_modes=False, **extra):
+    """Attach the concretisation of each case.  Cases with tombstones alternate between the two ways the code base adds
+    them: TSMReader.DeleteRange on the file before the store opens it, and the engine's way (batch delete on the store's live
+    readers with a statistics call while the tombstones are pending, then compaction of those same readers)."""
     out = []
     for i, st in enumerate(states):
         k = i + seed
         types = T.ALL_TYPES if ntypes >= 5 else [T.ALL_TYPES[(k + j) % 5] for j in range(ntypes)]
         conc = [CONCS[(k // 5 + j) % len(CONCS)] for j in range(nconc)]
         modes = [MODES[k % 2]] if rotate_modes else MODES
-        out.append(dict(st, nts=nts, types=types, conc=conc, modes=modes, salt=base + i, **extra))
+        c = dict(st, nts=nts, types=types, conc=conc, modes=modes, salt=base + i, **extra)
+        if 'files' in st['c'] and has_tombs(st) and k % 2 == 0 and not extra.get('stretch'):
+            c['tomb_api'] = 'live'
+            c['probe'] = PROBES[(k // 2) % len(PROBES)]
+        out.append(c)
     return out
+
+
+def nblocks(files, key, stretch, split):
+    return sum(-(-len(b) * stretch // split) for f in files for b in f[key]['blocks'])
+
+
+def many_blocks(states, nts, seed, base, every=1, rotate_modes=False, big_every=0):
+    """Refinement with many blocks per key: every abstract point becomes `stretch` concrete points and every block is cut
+    into concrete blocks of 1 or 2 points, so that the busiest key has 13..20 blocks across the input files (more than the 12
+    up to which sort.Sort is an insertion sort, at most the 20 up to which sort.Stable is one) while the abstract series, and
+    the spec's expectation, stay small.  Every big_every-th refinement aims at 21..28 blocks instead."""
+    out = []
+    for i, st in enumerate(states):
+        if i % every:
+            continue
+        k = i + seed
+        files = st['c']['files']
+        nkeys = len(files[0])
+        split = 1 + k % 2
+        lo, hi = (21, 28) if big_every and (i // every) % big_every == 0 else (13, 20)
+        target = lo + (k // 2) % (hi - lo + 1)
+        best = None
+        for stretch in range(2, 40):
+            nb = max(nblocks(files, key, stretch, split) for key in range(nkeys))
+            score = (0 if lo <= nb <= hi else 1, abs(nb - target))
+            if best is None or score < best[0]:
+                best = (score, stretch)
+        c = dict(st, nts=nts, types=T.ALL_TYPES, conc=[CONCS[(k // 3) % 3]], modes=[MODES[k % 2]] if rotate_modes else MODES,
+                 salt=base + i, stretch=best[1], split=split)
+        if has_tombs(st) and k % 2 == 0:
+            c['tomb_api'] = 'live'
+            c['probe'] = PROBES[(k // 2) % len(PROBES)]
+        out.append(c)
+    return out
+
+
+def regression_picks():
+    """Layouts that showed a defect of the unchanged tree (known finding stable_sort_nontransitive_block_order); replayed with
+    the refinement under which it shows (stretch 5, blocks of 2 points: 24 blocks of key 1 across 3 files)."""
+    no = {'blocks': [], 'tombs': []}
+    return [[[{'blocks': [[0, 2], [3]], 'tombs': []}, dict(no)],
+             [{'blocks': [[2, 3, 4]], 'tombs': []}, dict(no)],
+             [{'blocks': [[1, 2], [3]], 'tombs': []}, dict(no)]]]
 
 
 def picks_run(ctx, name, picks, nts, nfiles, nkeys):
@@ -63,9 +120,13 @@ def run(ctx):
     r, st = T.run_family(ctx, f'TSMMerge.CompactA_{tier}.cfg', tag='compactA', timeout=3600)
     cov['exhaustive_2files_1key_4ts_no_tombstone' if quick else 'exhaustive_2files_1key_4ts_le1tombstone'] = len(st)
     cases += decorate(st, 4, ctx.seed, 5, 1)
+    mb = many_blocks(st, 4, ctx.seed, 7 * 10 ** 6)
     r, st = T.run_family(ctx, f'TSMMerge.CompactB_{tier}.cfg', tag='compactB', timeout=3600)
     cov['exhaustive_2files_1key_3ts_le1tombstone_per_file'] = len(st)
     cases += decorate(st, 3, ctx.seed, 5, 1, base=10 ** 6, rotate_modes=quick)
+    mb += many_blocks(st, 3, ctx.seed, 8 * 10 ** 6, every=4 if quick else 1, rotate_modes=quick)
+    cov['many_blocks_refinements'] = len(mb)
+    cases += mb
     r, st = T.run_family(ctx, f'TSMMerge.CompactKeys_{tier}.cfg', tag='compactkeys', timeout=3600)
     cov['exhaustive_2files_2keys_reduced_slots'] = len(st)
     cases += decorate(st, 3, ctx.seed, 5, 1, base=2 * 10 ** 6, rotate_modes=quick)
@@ -76,11 +137,20 @@ def run(ctx):
     # file rolling: > 65535 blocks of one key force ErrMaxBlocksExceeded and a second output file (ppb = 1 only)
     rp = roll_picks(1 if tier == 'quick' else 4)
     rkeys = {json.dumps(p, sort_keys=True) for p in rp}
-    st = picks_run(ctx, 'MCCompact3', [T.rand_files(ctx.rng, 3, 2, 5) for _ in range(n3)] + rp, 5, 3, 2)
+    gp = regression_picks()
+    gkeys = {json.dumps(p, sort_keys=True) for p in gp}
+    st = picks_run(ctx, 'MCCompact3', [T.rand_files(ctx.rng, 3, 2, 5) for _ in range(n3)] + rp + gp, 5, 3, 2)
     rolls = [x for x in st if json.dumps(x['c']['files'], sort_keys=True) in rkeys]
-    st = [x for x in st if json.dumps(x['c']['files'], sort_keys=True) not in rkeys]
+    regs = [x for x in st if json.dumps(x['c']['files'], sort_keys=True) in gkeys]
+    st = [x for x in st if json.dumps(x['c']['files'], sort_keys=True) not in rkeys | gkeys]
+    cases += [dict(x, nts=5, types=T.ALL_TYPES, conc=['small'], modes=MODES, salt=10 ** 7 + i, stretch=5, split=2)
+              for i, x in enumerate(regs)]
+    cov['known_finding_regression_layouts'] = len(regs)
     cov['sampled_3files_2keys_5ts'] = len(st)
     cases += decorate(st, 5, ctx.seed, 5, 1 if tier == 'quick' else 2, base=4 * 10 ** 6)
+    mb3 = many_blocks(st, 5, ctx.seed, 9 * 10 ** 6, every=2, big_every=8)
+    cov['many_blocks_refinements'] += len(mb3)
+    cases += mb3
     cov['file_rolling_scenarios'] = len(rolls)
     roll = decorate(rolls, 5, ctx.seed, 1, 1, base=6 * 10 ** 6, stretch=17000, only_ppb=1)
     for c in roll:
@@ -101,14 +171,25 @@ def run(ctx):
     ctx.extra_cov.update(cov)
     ctx.extra_cov['exhaustive_parts'] = [k for k in cov if k.startswith('exhaustive')]
     ctx.extra_cov['file_rolling_scenarios_with_several_output_files'] = len(rolled)
+    ctx.extra_cov['cases_with_live_batch_tombstones'] = sum(1 for c in cases if c.get('tomb_api') == 'live')
+    ctx.extra_cov['many_blocks_refinements_over_12_blocks'] = sum(
+        1 for r, c in zip(res, cases) if c.get('split') and r.get('ok') and r.get('nontrivial'))
+    if not ctx.extra_cov['many_blocks_refinements_over_12_blocks'] or not ctx.extra_cov['cases_with_live_batch_tombstones']:
+        if all(r.get('ok') for r in res):
+            raise vlib.Inconclusive('no many-blocks refinement with > 12 overlapping blocks or no live-tombstone case (vacuous)')
     ctx.rule = ('case = one TLC state: input files (oldest first; per key <= 2 ordered disjoint blocks, tombstone ranges per file '
                 'and key) or a sequence of cache writes, with the expected content per key and the block-size bound per '
                 'points-per-block setting. Exhaustive parts enumerate every input of the stated shape, sampled parts are drawn '
                 'with VERIF_SEED and passed to the spec as explicit inputs (NPicks / PickAt). Each file case runs CompactFast and CompactFull for every ppb in '
                 '{1,2,3,1000} (in the quick tier the cases of the two larger exhaustive parts alternate between fast and full); each cache case runs WriteSnapshot and NewCacheKeyIterator for every ppb (every input holds one '
                 'series per value type, booleans one per bit of the file index; the timestamp concretisation rotates over the cases). '
+                'Many-blocks refinements replay a layout with every point stretched and every block cut into 1- or 2-point blocks '
+                '(13..20 blocks for the busiest key). Cases with tombstones alternate between TSMReader.DeleteRange before the '
+                'store opens the file and the engine\'s batch delete on the store\'s live readers (statistics call while the '
+                'tombstones are pending), compacting those same readers. '
                 'non-trivial = blocks of the same key in two input files overlap in time, or a tombstone removes a proper part of '
-                'a block (files); a timestamp of a key written twice (cache); more than one output file (rolling); distinct by input.')
+                'a block (files); a timestamp of a key written twice (cache); more than one output file (rolling); more than 12 '
+                'overlapping input blocks of one key (many-blocks); distinct by input and refinement.')
     ctx.assumptions += [
         'timestamps lie in [models.MinNanoTime, models.MaxNanoTime]',
         'input blocks of one key in one file are ordered and disjoint (the writer\'s invariant)',
